@@ -32,6 +32,12 @@ def msg_bytes(mid, n):
     return words[:n]
 
 
+def _mid(msg):
+    """the message id embedded in contents of >= 4 bytes (header objects may be re-used, so the
+    frame id alone does not identify a message)"""
+    return struct.unpack("<H", bytes(msg[:2]))[0] if len(msg) >= 4 else None
+
+
 def len_class(n):
     if n == 0:
         return "0"
@@ -76,10 +82,36 @@ def gen_cases(ctx):
                             rng.randrange(0, 145), rng.randrange(0, 145)])
             n = min(n, lim)
             t = rng.choice([0, 1, 63, 64, 65, 66, 127, rng.randrange(0, 128)])
-            msgs.append({"src": src, "dst": dst, "len": n, "type": t})
+            ms = {"src": src, "dst": dst, "len": n, "type": t}
+            prev = [x for x in msgs if x["src"] == src]
+            if prev and rng.random() < 0.25:
+                # the application sends with the header object it used last time (same frame id,
+                # destination and type); contents carry their own id, so >= 4 bytes
+                ms.update(dst=prev[-1]["dst"], type=prev[-1]["type"], reuse=True, len=max(4, n))
+                if prev[-1]["dst"] in frag_off or src in frag_off:
+                    ms["len"] = min(ms["len"], 24)
+            msgs.append(ms)
+        stall = None
+        relays = [a for a in nodes if kinds[a] == "net" and any(net_ref.parent(b) == a for b in nodes if b)]
+        if i % 6 == 2 and relays and not hostile:
+            # a relay whose application stops reading: six messages fill its queue, after which
+            # it must go on forwarding other nodes' traffic (nothing more is addressed to it)
+            stall = rng.choice(relays)
+            srcs = [a for a in ends if a != stall and kinds[a] == "net"]
+            if srcs:
+                head = []
+                for _ in range(6):
+                    hs = rng.choice(srcs)
+                    head.append({"src": hs, "dst": stall, "type": rng.choice([1, 66]),
+                                 "len": rng.choice([0, 5, 24] if (hs in frag_off or stall in frag_off) else [0, 5, 24, 60])})
+                rest = [x for x in msgs if x["dst"] != stall and x["src"] != stall and not x.get("reuse")]
+                through = [x for x in rest if stall in net_ref.tree_path(x["src"], x["dst"])[:-1]]
+                msgs = head + through + [x for x in rest if x not in through][:10]
+            else:
+                stall = None
         yield {"nodes": nodes, "kinds": {str(k): v for k, v in kinds.items()},
                "profiles": {str(k): v for k, v in profiles.items()}, "frag_off": frag_off,
-               "msgs": msgs, "seed": rng.getrandbits(30), "hostile": hostile,
+               "msgs": msgs, "seed": rng.getrandbits(30), "hostile": hostile, "stall": stall,
                "id_start": {str(a): rng.choice([0, 0, 7, 65530]) for a in nodes}}
 
 
@@ -105,6 +137,8 @@ def _run(ctx, case, net):
             nn.key = a
         if a in case["frag_off"]:
             nn.obj.fragmentation = False
+        if a == case.get("stall"):
+            nn.lazy_ns = 1 << 60  # its application reads nothing until the final drain
     if hostile:
         frng = random.Random(case["seed"] ^ 0x10551)
         net.air.collisions = True
@@ -120,11 +154,17 @@ def _run(ctx, case, net):
                           % (op, oct(nn.obj.node_address), why))
     net.on_return.append(mon)
     sent = []
+    last_hdr = {}
     for k, ms in enumerate(case["msgs"]):
         payload = msg_bytes(k + 1, ms["len"])
 
         def fn(nn, ms=ms, payload=payload):
-            h = Hdr(ms["dst"], ms["type"])
+            h = last_hdr.get(ms["src"]) if ms.get("reuse") else None
+            if h is None:
+                h = Hdr(ms["dst"], ms["type"])
+            else:
+                ctx.count("header_objects_reused")
+            last_hdr[ms["src"]] = h
             ms["_fid"] = h.frame_id
             return nn.obj.send(h, payload)
         net.steps.append({"who": ms["src"], "name": "send", "fn": fn, "deadline_ms": 8000})
@@ -149,11 +189,11 @@ def _run(ctx, case, net):
     bypayload = {}
     for nn in net.nodes:
         for e in nn.applog:
-            bypayload.setdefault((e["from"], e["id"]), []).append((nn.obj.node_address, e))
-    sent_set = {(ms["src"], ms.get("_fid")): (k, ms) for k, ms in enumerate(case["msgs"])}
+            bypayload.setdefault((e["from"], e["id"], _mid(e["msg"])), []).append((nn.obj.node_address, e))
+    sent_set = {(ms["src"], ms.get("_fid"), _mid(sent[k])): (k, ms) for k, ms in enumerate(case["msgs"])}
     # corruption / mis-delivery: judged on every medium
-    for (frm, fid), lst in bypayload.items():
-        ent = sent_set.get((frm, fid))
+    for (frm, fid, mid), lst in bypayload.items():
+        ent = sent_set.get((frm, fid, mid))
         for a, e in lst:
             if ent is None or e["msg"] != sent[ent[0]] or e["type"] != ent[1]["type"]:
                 why = "never sent" if ent is None else (
@@ -176,7 +216,7 @@ def _run(ctx, case, net):
         payload = sent[rec["i"]]
         hops = len(net_ref.tree_path(ms["src"], ms["dst"]))
         pcls = "hostile" if hostile else "homog"
-        got = bypayload.get((ms["src"], ms.get("_fid")), [])
+        got = bypayload.get((ms["src"], ms.get("_fid"), _mid(payload)), [])
         at_dst = [a for a, _ in got if a == ms["dst"]]
         onair = rec["air1"] > rec["air0"]
         if rec["exc"]:
